@@ -80,6 +80,7 @@ func init() {
 	register(&PropertyRule{ID: "C04", Explain: "structural necessary conditions of C04 (leader completeness): see DESIGN.md §5 C04", Run: func(c *Check) {
 		gVote(c)
 		gCommitLeader(c)
+		c06Follower(c)
 		gQuorumJoint(c)
 		c04Noop(c)
 		gAppendMatch(c)
